@@ -78,6 +78,29 @@ out += ["", "## Missed at first, and what was strengthened", "",
         "  the channel that is behind); **C20-r2-2** needs the same proof bytes twice in one message (two new scenarios).",
         "* Two panics on the UNCHANGED tree were noticed by a seeding agent while probing: `CalculationCreatePosition` on a pool without",
         "  positions (division by zero) — reproduced by a new structured query grid, repaired (`fix:` 5450c47, C15-Q2) — and `Int overflow` for",
-        "  astronomically large parallel-route weights, which is the recorded class C15-K3."]
+        "  astronomically large parallel-route weights, which is the recorded class C15-K3.",
+        "",
+        "## Round 3 (`Cnn-r3-k`): different kinds, other files",
+        "",
+        "A third set of forty, each agent told which changes had already been tried for its property and asked for another kind of slip,",
+        "preferably in another function or a secondary file. First evaluation: 34 of 40 reported (30 by the quick tier, 4 only by the",
+        "thorough tier), 6 missed. What each miss led to (the table shows the re-evaluation with the final machinery):",
+        "",
+        "* **C09-r3-1** (bonded filter dropped in `GetZkpThreshold`) and **C09-r3-2** (assignment threshold computed once per block): the `da`",
+        "  suite took the shard assignment from the keeper itself. It now computes the threshold by its definition from the bonded validators it",
+        "  sees (new oracle `threshold_ref`), and a third of the histories lower `max_validators` at run time so that an unbonding validator sits in",
+        "  the staking power index.",
+        "* **C12-r3-1** (`break` for `continue` in the multi-denom locked-coins loop) and **C12-r3-2** (owner cached in the implementation object",
+        "  shared by all accounts of a type): `lockup2` gained a multi-denom send scenario and a second account of the same type with another owner.",
+        "* **C14-r3-1** (package-level `zeroDec` aliased and mutated) and **C14-r3-2** (raw error text, with a heap address, in an acknowledgement):",
+        "  invisible to N-fold re-execution; the construct scanner gained the rules `shared-mutation` and `error-text-in-state`.",
+        "* **C16-r3-1** (accumulator captured by the tally closure leaks into the next tally): the `govtally` suite now uses ONE function value per",
+        "  history, as the application does.",
+        "* **C19-r3-2** (fee `InitGenesis` replaces an empty bypass list by the default): the mutant acts on BOTH chains' genesis, so the state must be",
+        "  produced by a message: governance sets the empty list before the export.",
+        "* thorough-only → quick: **C03-r3-1** (parallel branch with exactly one wrong denom: new malformation that swaps in an executable branch to",
+        "  another denom), **C15-r3-1** (index equal to the shard count: message templates straddle both ends of the list).",
+        "* **C01-r3-2** (no-progress counter of the swap loop compares decimals with `==`: an unmetered hang) made the harness wait for the framework's",
+        "  time limit; every suite now has a per-operation watchdog (300 s) that ends the run with a `no_hang` verdict and the history so far."]
 open(os.path.join(VERIF, "seeded", "README.md"), "w").write("\n".join(out) + "\n")
 print(len(rows), "rows;", sum("**caught**" in r for r in rows), "caught")
